@@ -132,7 +132,7 @@ theorem three_methods_agree {cb : Cb α K} {pop : List (α × K) → List (α ×
 end
 
 
-/-! ### cover tree batch query: `cover_query_exact`
+/-! ### cover tree batch query: `cover_query_exact_partial`
 
 Subject: `CoverTree.batchQuery` — the model of `k_nearest_neighbor` / `internal_batch_nearest_neighbor` /
 `descend` / `copy_zero_set` / `copy_cover_sets` / `brute_nearest` / `update` (code as of the repair F-COVER-COPY
@@ -140,11 +140,11 @@ Subject: `CoverTree.batchQuery` — the model of `k_nearest_neighbor` / `interna
 `batch_create` builds is checked against it on every run) and for every metric, whatever the model returns is
 right: every query sample gets a result, and every result `q :: cands` has duplicate-free candidates containing
 every sample near `q` (`CoverTree.Near`: no `K0 = k+1` distinct samples are all strictly closer)
-— `cover_query_exact`; together with the wrapper this gives exact neighbour lists — `cover_tree_exact`.
+— `cover_query_exact_partial`; together with the wrapper this gives exact neighbour lists — `cover_tree_exact_partial`.
 Ingredients: the `upper_bound` array is justified at every step, every pruning decision is sound, the traversal
 loses no node (live-set invariant through `descend`, the copy loops and the recursion).  The theorem is about
 answers (`= some res`); that the fuel of the model suffices is not proved (the driver never saw `mq=fuel`).
-`batch_create` is modelled and proved to deliver `wfTree` below (`batchCreate_wf`, `cover_tree_end_to_end`); `halfsort` is a parameter of the
+`batch_create` is modelled and proved to deliver `wfTree` below (`batchCreate_wf`, `cover_tree_end_to_end_partial`); `halfsort` is a parameter of the
 model and the theorems hold for every `hsort` returning a permutation of its argument.  For the copy bound with
 `query_chi->max_dist` counted once — the code before the repair — the statement is refuted below. -/
 
@@ -209,13 +209,15 @@ theorem cover_filter_sound (hm : IsMetric δ) {q r : Nat} {ub : List K} {Off : L
 
 end
 
-/-- **`cover_query_exact`** (partial correctness: a statement about answers `= some res` of the fuelled model;
+/-- **`cover_query_exact_partial`** (`_partial`: the full statement would also say that the fuelled model answers; it is
+    a statement about answers `= some res` only — `none` stands both for exhausted fuel and for an inner query node without
+    children, neither of which is proved impossible here;
     that the fuel suffices is not proved — `exTree_query` shows an answer) : on a well-formed tree over the samples
     `0..N-1` (with at least two samples, so that the top node has children) and for every metric, if the batch
     query answers then every sample `q` has a result
     and every result is `q :: cands` with `cands` duplicate free, inside the sample set and containing every
     sample near `q`. -/
-theorem cover_query_exact {K : Type} [LinearOrder K] [AddCommGroup K] [IsOrderedAddMonoid K] {δ : Nat → Nat → K}
+theorem cover_query_exact_partial {K : Type} [LinearOrder K] [AddCommGroup K] [IsOrderedAddMonoid K] {δ : Nat → Nat → K}
     (hm : IsMetric δ) {K0 : Nat} (hK : 1 ≤ K0) {N : Nat} (leafScale : Nat) {top : CNode K}
     {hsort : List (DN K) → List (DN K)} (hperm : ∀ l, (hsort l).Perm l)
     (hwf : wfTree δ N top = true) (htopc : top.children ≠ []) {res : List (List Nat)}
@@ -225,11 +227,11 @@ theorem cover_query_exact {K : Type} [LinearOrder K] [AddCommGroup K] [IsOrdered
       ∀ q ∈ top.leaves, ∃ r ∈ res, r.head? = some q :=
   batchQuery_good hm hK leafScale hperm hwf htopc h
 
-/-- **`cover_tree_exact`** (partial correctness, as `cover_query_exact`) : the cover-tree neighbour search is exact —
+/-- **`cover_tree_exact_partial`** (partial correctness, as `cover_query_exact_partial`) : the cover-tree neighbour search is exact —
     for every well-formed tree, every metric,
     every `k < N`, every result of the batch query and every `partial_sort` outcome of the wrapper, the list
     returned for sample `q` is the exact k-NN list of `q`. -/
-theorem cover_tree_exact {K : Type} [LinearOrder K] [AddCommGroup K] [IsOrderedAddMonoid K] {δ : Nat → Nat → K}
+theorem cover_tree_exact_partial {K : Type} [LinearOrder K] [AddCommGroup K] [IsOrderedAddMonoid K] {δ : Nat → Nat → K}
     (hm : IsMetric δ) {k N : Nat} (hk : k < N) (leafScale : Nat) {top : CNode K}
     {hsort : List (DN K) → List (DN K)} (hperm : ∀ l, (hsort l).Perm l)
     (hwf : wfTree δ N top = true) (htopc : top.children ≠ []) {res : List (List Nat)}
@@ -246,7 +248,7 @@ theorem cover_tree_exact {K : Type} [LinearOrder K] [AddCommGroup K] [IsOrderedA
     exact List.mem_range.2 (hwf.2 q hq')
   exact cover_wrapper_exact_near List.nodup_range hqN (by simpa using hk) hgc hlt hl
 
-/-! non-vacuity of `cover_query_exact` / `cover_tree_exact`: the tree the real `batch_create` builds for the four
+/-! non-vacuity of `cover_query_exact_partial` / `cover_tree_exact_partial`: the tree the real `batch_create` builds for the four
     samples 0, 3, 4, 9 of the integer line (dumped by the harness), `K0 = 2` (k = 1) -/
 
 /-- `|x_a - x_b|` for the samples 0, 3, 4, 9 (indices above 3 stand for sample 3: a pseudo-metric on all of ℕ) -/
@@ -274,10 +276,10 @@ theorem exTree_query :
 
 /-- hence, e.g., the neighbour list selected for sample 3 (x = 9) from its candidates `[3, 2]` is its exact 1-NN list -/
 example : IsExactKnn exδ (List.range 4) 1 3 (coverSelect exδ 3 1 [3, 2]) :=
-  cover_tree_exact exδ_metric (by decide) 100 (fun l => List.Perm.refl l) exTree_query.1 exTree_query.2.1
+  cover_tree_exact_partial exδ_metric (by decide) 100 (fun l => List.Perm.refl l) exTree_query.1 exTree_query.2.1
     exTree_query.2.2 (by decide) (coverSelect_admissible exδ 3 1 [3, 2]).2 (coverSelect_admissible exδ 3 1 [3, 2]).1
 
-/-! ### cover tree construction: `batchCreate_wf`, `cover_tree_end_to_end`
+/-! ### cover tree construction: `batchCreate_wf`, `cover_tree_end_to_end_partial`
 
 Subject: `CoverBuild.batchCreate` — the statement-by-statement model of `batch_create` / `batch_insert` / `split` /
 `dist_split` / `max_set` / `set_leaf_scale` (code as of the repairs F-COVER-ZERO e2bbcb6, F-COVER-SCALE e30d89e and
@@ -306,7 +308,7 @@ theorem batchCreate_leaves {δ : Nat → Nat → K} (hm : IsMetric δ) {getScale
   batchCreate_good hm.self hm.nonneg hpos h
 
 /-- **`batchCreate_wf`** : the tree `batch_create` returns for the samples `0 .. N-1` (in any order) satisfies
-    `wfTree` — the hypothesis of `cover_query_exact` / `cover_tree_exact`: every sample occurs exactly once, the first
+    `wfTree` — the hypothesis of `cover_query_exact_partial` / `cover_tree_exact_partial`: every sample occurs exactly once, the first
     child carries the parent's point, `parent_dist` are true distances, `max_dist` bounds the distance to every
     descendant, scales increase towards the leaves.  For every (pseudo-)metric, every `N`, every `getScale`, every
     non-negative `distOfScale`. -/
@@ -316,11 +318,11 @@ theorem batchCreate_wf {δ : Nat → Nat → K} (hm : IsMetric δ) {getScale : K
     wfTree δ N t = true :=
   batchCreate_wf' hm.self hm.nonneg hpos hpts h
 
-/-- **`cover_tree_end_to_end`** (partial correctness in the query's fuel, as `cover_tree_exact`) : construction, batch
+/-- **`cover_tree_end_to_end_partial`** (partial correctness in the query's fuel, as `cover_tree_exact_partial`) : construction, batch
     query and wrapper chained — for every metric, every `N ≥ 2`, every `k < N`, every `getScale`, every non-negative
     `distOfScale`: if `batch_create` returns `(top, leaf_scale)` and the batch query on `top` (as query and reference
     tree, with that `leaf_scale`) answers, then the list the wrapper selects for sample `q` is the exact k-NN list. -/
-theorem cover_tree_end_to_end {δ : Nat → Nat → K} (hm : IsMetric δ) {getScale : K → Int} {distOfScale : Int → K}
+theorem cover_tree_end_to_end_partial {δ : Nat → Nat → K} (hm : IsMetric δ) {getScale : K → Int} {distOfScale : Int → K}
     (hpos : ∀ s, 0 ≤ distOfScale s) {k N : Nat} (hk : k < N) (hN : 2 ≤ N) {fuel : Nat} {top : CNode K} {ls : Nat}
     (hb : batchCreate δ getScale distOfScale fuel (List.range N) = some (top, ls))
     {hsort : List (DN K) → List (DN K)} (hperm : ∀ l, (hsort l).Perm l) {res : List (List Nat)}
@@ -332,7 +334,7 @@ theorem cover_tree_end_to_end {δ : Nat → Nat → K} (hm : IsMetric δ) {getSc
     unfold wfTree at hwf
     simp only [Bool.and_eq_true, beq_iff_eq] at hwf
     exact hwf.1.2
-  exact cover_tree_exact hm hk ls hperm hwf (children_ne_nil_of_leaves (by omega)) h hr hlt hl
+  exact cover_tree_exact_partial hm hk ls hperm hwf (children_ne_nil_of_leaves (by omega)) h hr hlt hl
 
 /-- **`batchCreate_fuel_suffices`** (the model reaches no error state and its fuel suffices) : the construction
     answers — no `last()` / `decr()` of an empty `dist` stack, no negative scale, none of the three counters (recursion
@@ -384,7 +386,7 @@ theorem cover_top_uncovered_drops :
 
 end
 
-/-! non-vacuity of `batchCreate_wf` / `cover_tree_end_to_end`: six samples 0, 3, 4, 9, 9, 20 of the integer line (two of
+/-! non-vacuity of `batchCreate_wf` / `cover_tree_end_to_end_partial`: six samples 0, 3, 4, 9, 9, 20 of the integer line (two of
     them coincide), the scale functions tabulated from the real `get_scale` / `dist_of_scale` (`floor(1.3^s)`: the
     distances are integers) — the model returns exactly the tree the real `batch_create` builds (dumped by the
     harness: `knn method=covertree k=1 cb=plain metric=L1 pts=0;3;4;9;9;20 dump=1`) -/
@@ -436,7 +438,7 @@ example : wfTree ex6δ 6 ex6Tree = true :=
 /-- … and, e.g., the list selected for sample 3 (x = 9, coinciding with sample 4) from its candidates `[4, 3]` is its
     exact 1-NN list -/
 example : IsExactKnn ex6δ (List.range 6) 1 3 (coverSelect ex6δ 3 1 [4, 3]) :=
-  cover_tree_end_to_end ex6δ_metric (fun _ => Int.natCast_nonneg _) (by decide) (by decide) ex6_build.1
+  cover_tree_end_to_end_partial ex6δ_metric (fun _ => Int.natCast_nonneg _) (by decide) (by decide) ex6_build.1
     (fun l => List.Perm.refl l) ex6_build.2 (by decide) (coverSelect_admissible ex6δ 3 1 [4, 3]).2
     (coverSelect_admissible ex6δ 3 1 [4, 3]).1
 
